@@ -2,6 +2,7 @@ package witness
 
 import (
 	"bytes"
+	"strings"
 	"testing"
 
 	"github.com/gofiber/fiber/v3"
@@ -73,4 +74,28 @@ func TestF21_TooManyParametersIsRefusedAtRegistration(t *testing.T) {
 	app := fiber.New()
 	app.Get(pattern, func(c fiber.Ctx) error { return nil })
 	do(app, "GET", path)
+}
+
+// F27: ClearCookie handed the cookie name to fasthttp as is; Cookie let fasthttp percent-decode the
+// Path after it had been sanitised. Either way a CR/LF reached the response header block.
+func TestF27_CookieHelpersDoNotSplitTheHeader(t *testing.T) {
+	app := fiber.New()
+	app.Get("/clear", func(c fiber.Ctx) error { c.ClearCookie("a\r\nX-Inj: y"); return nil })
+	app.Get("/path", func(c fiber.Ctx) error {
+		c.Cookie(&fiber.Cookie{Name: "n", Value: "v", Path: "/a%0d%0aX-Inj:%20y"})
+		return nil
+	})
+	app.Get("/path2", func(c fiber.Ctx) error {
+		c.Cookie(&fiber.Cookie{Name: "n", Value: "v", Path: "/a%0d%250d%250aX-Inj:%20y"})
+		return nil
+	})
+	for _, u := range []string{"/clear", "/path", "/path2"} {
+		rc := do(app, "GET", u)
+		raw := rc.Response.Header.String()
+		for _, line := range strings.Split(raw, "\r\n") {
+			if strings.HasPrefix(line, "X-Inj") {
+				t.Errorf("%s: a value handed to a cookie helper added the header line %q", u, line)
+			}
+		}
+	}
 }
